@@ -41,7 +41,7 @@ ORCH = 'chainables.orchestrate'
 
 
 def run(ctx: Ctx):
-  for r in (r1, r2, r3, r4, r5, r6, r7):
+  for r in (r1, r2, r3, r4, r5, r6, r7, r8):
     ctx.guard(r)
 
 
@@ -826,12 +826,60 @@ def r7(ctx: Ctx):
   ctx.floor(rule, 3, n)
 
 
+def r8(ctx: Ctx):
+  rule = 'R-C20-8'
+  ctx.rule(rule, '"recorded heartbeats never move backwards": register() stores'
+           ' unconditionally, so the time the server\'s heartbeat handler'
+           ' registers for a sender must be a clock reading taken on that very'
+           ' path — `time.time()` itself or a field assigned from it on every'
+           ' path to the call; a value left over from earlier activity would'
+           ' overwrite a newer heartbeat recorded by the client side')
+  fi = ctx.repo.func('chainables.courier_server', 'CourierServer._heartbeat')
+  g = cfgm.cfg_of(fi.node)
+  regs = []
+  for nd in g.nodes:
+    for x in cfgm.node_exprs(nd):
+      for c in ast.walk(x):
+        if isinstance(c, ast.Call) and isinstance(c.func, ast.Attribute) and c.func.attr in (
+            'register', 'refresh') and 'registry' in unparse(c.func.value) and len(c.args) >= 2:
+          regs.append((nd, c))
+  if not regs:
+    raise AnalysisError(f'{rule}: no registry store in CourierServer._heartbeat')
+  n = 0
+  for nd, c in regs:
+    n += 1
+    tv = c.args[1]
+    if isinstance(tv, ast.Call) and unparse(tv.func) in ('time.time', 'time.monotonic'):
+      ctx.ok(rule, fi, f'{unparse(c.func)[-30:]} with a direct clock reading', c)
+      continue
+    fresh = lambda n_: n_.kind == 'stmt' and isinstance(n_.ast, ast.Assign) and any(
+        unparse(t) == unparse(tv) for t in n_.ast.targets) and isinstance(n_.ast.value, ast.Call) and (
+            unparse(n_.ast.value.func) in ('time.time', 'time.monotonic'))
+    w = g.must_pass(g.entry, [nd], fresh, cfgm.only_normal)
+    if w is None:
+      ctx.ok(rule, fi, f'`{unparse(tv)}` is assigned from the clock on every path to the store', c)
+    else:
+      ctx.fail(rule, fi, f'CourierServer._heartbeat: the registered time is a fresh clock reading',
+               f'the handler stores `{unparse(tv)}` for the sender, but a path reaches the'
+               ' store without assigning it from the clock: the sender is stamped'
+               ' with the time of some earlier activity, a newer heartbeat is'
+               ' overwritten and a worker that just reported can be declared dead',
+               node=c, witness=w[-6:])
+  ctx.floor(rule, 1, n)
+
+
 from mlmverif.selfcheck import B, OK  # noqa: E402
 
 _U = 'utils/courier_utils.py'
 _W = 'chainables/courier_worker.py'
 _O = 'chainables/orchestrate.py'
 VARIANTS = [
+    B('heartbeat-registers-stale-time', 'chainables/courier_server.py',
+      '    self._last_heartbeat = time.time()\n    if not sender_addr:\n      return',
+      '    if not sender_addr:\n      self._last_heartbeat = time.time()\n      return', 'R-C20-8'),
+    OK('heartbeat-registers-direct-clock', 'chainables/courier_server.py',
+       '      courier_utils.worker_registry().register(\n          sender_addr, self._last_heartbeat\n      )',
+       '      courier_utils.worker_registry().register(sender_addr, time.time())'),
     B('release-before-acquire-in-next-idle-worker', _W,
       '      if worker.acquire_by(self):\n        if worker.has_capacity and worker.is_alive:\n          return worker\n        # Do not keep a worker that was acquired but cannot be used.\n        worker.release()',
       '      if not (worker.has_capacity and worker.is_alive):\n        worker.release()\n        continue\n      if worker.acquire_by(self):\n        return worker',
